@@ -642,6 +642,28 @@ func monitorUndecodable(c bulkCase) []string {
 	if c.Atomic && after != before {
 		return []string{fmt.Sprintf("atomic bulk with an undecodable element at position %d reports a failure (status %d) but changed the ledger: %d new logs [undecodable-atomic-partial]", k, status, n1-n0)}
 	}
+	if c.Atomic && len(c.Ops) >= 1 {
+		// the same atomic bulk as a json STREAM that breaks off after its last element (a malformed tail): all or nothing
+		// holds for streams too (internal/api/bulking/handler_stream_json.go; repaired by 415190a)
+		b2 := newBulkStack(c.Mode, c.Prep)
+		b2.st.PG.Clock = pgsem.TS(c.Now)
+		before2 := b2.snap()
+		parts := make([]string, len(c.Ops))
+		for i, o := range c.Ops {
+			parts[i] = opJSON(o)
+		}
+		q := "/v2/l1/_bulk?atomic=true"
+		if c.Version != "" {
+			q += "&schemaVersion=" + url.QueryEscape(c.Version)
+		}
+		resp := newHTTPAPI(b2.st).do("POST", q, map[string]string{"Content-Type": "application/vnd.formance.ledger.api.v2.bulk+json-stream"}, strings.Join(parts, "\n")+"\n{")
+		if resp.Code/100 == 2 {
+			return []string{fmt.Sprintf("atomic json-stream bulk with a malformed tail is answered %d [stream-malformed-accepted]", resp.Code)}
+		}
+		if after2 := b2.snap(); after2 != before2 {
+			return []string{fmt.Sprintf("atomic json-stream bulk with a malformed tail is answered %d but changed the ledger [stream-atomic-partial]", resp.Code)}
+		}
+	}
 	if !c.Atomic && !c.Cont && n1-n0 > k {
 		return []string{fmt.Sprintf("sequential bulk without continueOnFailure: element %d cannot be decoded, yet %d elements were applied (at most the %d before it may be) [undecodable-not-stopped]", k, n1-n0, k)}
 	}
